@@ -10,6 +10,7 @@ scalar operator cell by cell. Lists fold left to right (sub_/div_: both sides ar
 No pandas arithmetic is used by the oracle; pandas is only used to build the operands and to read index/columns/values.
 """
 import datetime
+import json
 import math
 
 from hypothesis import strategies as st
@@ -337,7 +338,19 @@ def _cellv(v):
     return NAN if v == 'nan' else v
 
 
+_SESSION = [None]      # while a session case runs: operand spec (json) -> the ONE object built for it, shared by all calls of the session
+
+
 def _build(o):
+    if _SESSION[0] is not None and o['k'] != 'c':
+        key = json.dumps(o, sort_keys=True)
+        if key not in _SESSION[0]:
+            _SESSION[0][key] = _build_fresh(o)
+        return _SESSION[0][key]
+    return _build_fresh(o)
+
+
+def _build_fresh(o):
     import pandas as pd
     if o['k'] == 'c':
         return _cellv(o['v'])
@@ -839,6 +852,75 @@ def run_agg(spec):
     return dict(nt=nt, cls=cls)
 
 
+# ----------------------------------------------------------------------------- sub-check: several calls on the same operand objects
+
+@st.composite
+def _session_case(draw):
+    """a pool of 3-4 Series (or frames over one column set) and 2-4 calls on ordered selections of them - the same objects every time -
+    half of the selections being prefixes / extensions of the previous call's; one join policy for the whole session in 3 cases out of 4"""
+    ctx = _ctx(draw)
+    ctx['big'] = False
+    frames = draw(st.integers(0, 3)) == 0
+    n = draw(st.integers(3, 4))
+    cols = _cols(draw, ctx)
+    pool = []
+    for _ in range(n):
+        pool.append(_ts(draw, 'f', pool, ctx, list(draw(st.permutations(cols)))) if frames else _ts(draw, 's', pool, ctx))
+    join0 = draw(_policy)
+    calls, prev = [], None
+    for _ in range(draw(st.integers(2, 4))):
+        kind = draw(st.sampled_from(['arith', 'arith', 'agg', 'agg', 'minmax']))
+        how = draw(st.sampled_from(['prefix', 'prefix', 'extend', 'free', 'same'])) if prev else 'free'
+        if how == 'prefix' and len(prev) >= 3:
+            sel = prev[:draw(st.integers(2, len(prev) - 1))]
+        elif how == 'extend' and len(prev) < n:
+            sel = prev + [i for i in range(n) if i not in prev][:draw(st.integers(1, n - len(prev)))]
+        elif how == 'same':
+            sel = list(prev)
+        else:
+            sel = list(draw(st.permutations(list(range(n)))))[:draw(st.integers(2, n))]
+        prev = sel
+        ops = [pool[i] for i in sel]
+        join = join0 if draw(st.integers(0, 3)) else draw(_policy)
+        columns = draw(_policy)
+        if kind == 'agg':
+            c = dict(op=draw(st.sampled_from(['df_sum', 'df_mean', 'df_count'])), form='list', lhs=ops, rhs=None, lhs_list=True, rhs_list=False)
+        else:
+            op = draw(st.sampled_from(['add_', 'mul_', 'sub_', 'div_'] if kind == 'arith' else ['min_', 'max_']))
+            if op in ('sub_', 'div_') or draw(st.booleans()):
+                nl = draw(st.integers(1, len(ops) - 1))
+                lhs, rhs = ops[:nl], ops[nl:]
+                c = dict(op=op, join=join, columns=columns, form='split' if len(ops) > 2 else 'bin', lhs=lhs, rhs=rhs, lhs_list=len(lhs) > 1, rhs_list=len(rhs) > 1)
+            else:
+                c = dict(op=op, join=join, columns=columns, form='list', lhs=ops, rhs=None, lhs_list=True, rhs_list=False)
+        calls.append(dict(kind=kind, sel=sel, call=c))
+    return dict(calls=calls)
+
+
+def run_session(spec):
+    _SESSION[0] = {}
+    try:
+        rel = set()
+        sels = [c['sel'] for c in spec['calls']]
+        for c in spec['calls']:
+            {'arith': run_arith, 'agg': run_agg, 'minmax': run_minmax}[c['kind']](c['call'])
+        for a, b in zip(sels, sels[1:]):
+            if a != b and (a[:len(b)] == b or b[:len(a)] == a):
+                rel.add('operands_prefix_of_previous_call' if len(b) < len(a) else 'operands_extend_previous_call')
+            if a == b:
+                rel.add('same_operands_again')
+        kinds = [c['kind'] for c in spec['calls']]
+        cls = ['calls=%i' % len(kinds)] + sorted(rel)
+        if 'agg' in kinds and len(set(kinds)) > 1:
+            cls.append('aggregation_and_operator_share_operands')
+        pols = set(c['call'].get('join', 'oj')[0] for c in spec['calls'])
+        if len(pols) == 1:
+            cls.append('one_join_policy_throughout')
+        return dict(nt=bool(rel - {'same_operands_again'}), cls=cls)
+    finally:
+        _SESSION[0] = None
+
+
 # ----------------------------------------------------------------------------- known / excluded input classes
 
 def _narrow_intermediate(spec):
@@ -891,6 +973,11 @@ SUBS = [
              'min/max on the aligned cells. non-trivial = partially overlapping indices with a NaN or 0 inside the overlap',
         floor=0.2, class_floors={'partial_overlap': 0.25, 'series_with_frame': 0.1, 'long': 0.06, 'fingerprint_indices': 0.03, 'same_columns_other_order': 0.05,
                                  'spelled_out_policy': 0.2}),
+    Sub('session', lambda tier: _session_case(), run_session, quick=800, thorough=8000,
+        rule='a pool of 3-4 Series (a quarter of the cases: frames over one column set) built ONCE, then 2-4 calls of add_/sub_/mul_/div_/min_/max_/df_sum/df_mean/df_count on ordered '
+             'selections of those same objects (half of them a prefix or an extension of the previous selection), mostly under one join policy; every call is judged by the oracle '
+             'of its own sub-check (pointwise model on the aligned operands), so a result may not depend on what was computed before. non-trivial = two consecutive calls whose operand lists are prefix-related',
+        floor=0.2, class_floors={'operands_prefix_of_previous_call': 0.15, 'operands_extend_previous_call': 0.1, 'aggregation_and_operator_share_operands': 0.2, 'one_join_policy_throughout': 0.2}),
     Sub('agg', lambda tier: _agg_case(), run_agg, quick=1000, thorough=10000,
         rule='df_sum/df_mean/df_count on 2-4 Series or 2-4 multi-column frames (column sets may differ), default policies; ' + _COMMON_RULE + 'oracle: union index, '
              'sum/mean over the non-NaN operands, count of them, NaN (count 0) where none. non-trivial as in arith',
